@@ -2,19 +2,130 @@
 from __future__ import annotations
 
 import htmltools
-from htmltools import HTML, Tag, TagList, html_escape
+from htmltools import HTML, HTMLDocument, Tag, TagList, html_escape
 from htmltools import _util
 
-from engine.api import harness, pick
+from engine.api import harness
 from oracles.escape import ref_escape_text
+from oracles.util import MARK, TF, subst
 
 
 @harness("C02", pre=lambda B, s: len(s) <= B["L"],
          bounds={"quick": {"L": 3}, "thorough": {"L": 5}},
          sym=["s: str over all code points, len <= L"],
          targets=["htmltools._util.html_escape"],
+         timeout={"quick": 150, "thorough": 1500},
          outside="strings longer than L")
 def k_escape_text(s: str) -> bool:
+    """exported html_escape == per-character reference (3 references, everything else unchanged)."""
     if htmltools.html_escape is not _util.html_escape:
         return False
     return html_escape(s) == ref_escape_text(s) and html_escape(s, attr=False) == ref_escape_text(s)
+
+
+@harness("C02", pre=lambda B, s: len(s) <= B["L"],
+         bounds={"quick": {"L": 3}, "thorough": {"L": 4}},
+         sym=["s: str over all code points, len <= L"],
+         targets=["htmltools._util.html_escape"],
+         timeout={"quick": 150, "thorough": 1500})
+def k_inert(s: str) -> bool:
+    """The escaped text cannot open/close a tag or forge a reference, and decodes to s."""
+    e = html_escape(s)
+    i = 0
+    dec = ""
+    n = len(e)
+    while i < n:
+        c = e[i]
+        if c == "<" or c == ">":
+            return False
+        if c == "&":
+            if e[i:i + 5] == "&amp;":
+                dec += "&"
+                i += 5
+            elif e[i:i + 4] == "&lt;":
+                dec += "<"
+                i += 4
+            elif e[i:i + 4] == "&gt;":
+                dec += ">"
+                i += 4
+            else:
+                return False
+        else:
+            dec += c
+            i += 1
+    return dec == s
+
+
+N_HOW = 16
+
+
+def build_emit(how: int, s):
+    """One of the ways a plain string reaches the output; returns the rendered html."""
+    if how == 0:
+        return Tag("div", s).get_html_string()
+    if how == 1:
+        return Tag("div", s, Tag("span", "x", _add_ws=False)).get_html_string()
+    if how == 2:
+        return Tag("div", Tag("span", _add_ws=False), s, Tag("b", _add_ws=False)).get_html_string()
+    if how == 3:
+        return Tag("div", Tag("span", _add_ws=False), s).get_html_string()
+    if how == 4:
+        return Tag("div", Tag("p", "x"), s).get_html_string(1, "\r\n")
+    if how == 5:
+        return TagList(s, Tag("p")).get_html_string()
+    if how == 6:
+        return Tag("div", [("a", [s])], "z").get_html_string()
+    if how == 7:
+        t = Tag("div", "a")
+        t.append(s)
+        return t.get_html_string()
+    if how == 8:
+        t = Tag("div", Tag("p"))
+        t.extend([s])
+        return t.get_html_string()
+    if how == 9:
+        t = Tag("div", "a", "b")
+        t.insert(1, s)
+        return t.get_html_string()
+    if how == 10:
+        return Tag("div", TF(s), "x").render()["html"]
+    if how == 11:
+        return Tag("span", s, Tag("b", _add_ws=False), _add_ws=False).get_html_string()
+    if how == 12:
+        return str(Tag("div", TF(TagList(s, Tag("p", s)))))
+    if how == 13:
+        return str(TagList(s))
+    if how == 14:
+        return HTMLDocument(Tag("div", Tag("p"), s)).render()["html"]
+    tl = TagList("a")
+    tl += [s]
+    return (tl + s + [s]).get_html_string()
+
+
+@harness("C02", pre=lambda B, how, s: 0 <= how < N_HOW and len(s) <= B["L"],
+         bounds={"quick": {"L": 2}, "thorough": {"L": 3}},
+         shard={"how": range(N_HOW)},
+         sym=["s: str over all code points, len <= L"], sel=["how: 16 ways a string child reaches the output"],
+         targets=["htmltools._core.Tag.get_html_string", "htmltools._core.TagList.get_html_string",
+                  "htmltools._core._normalize_text", "htmltools._core._tagchilds_to_tagnodes"],
+         timeout={"quick": 150, "thorough": 900},
+         outside="tree shapes other than the 16 listed emission paths (layout itself is C05/C06)")
+def h_emit_paths(how: int, s: str) -> bool:
+    """render(T[s]) == render(T[MARK]) with MARK replaced by the reference escaping of s."""
+    return build_emit(how, s) == subst(build_emit(how, MARK), MARK, ref_escape_text(s))
+
+
+@harness("C02", pre=lambda B, how, n: 0 <= how <= 2 and -B["N"] <= n <= B["N"],
+         bounds={"quick": {"N": 10 ** 6}, "thorough": {"N": 10 ** 12}},
+         sym=["n: int in [-N, N]"], sel=["how: only child / sibling / float catalogue"],
+         targets=["htmltools._core._tagchilds_to_tagnodes"])
+def h_numbers(how: int, n: int) -> bool:
+    """numbers render as their str() text."""
+    if how == 0:
+        return Tag("div", n).get_html_string() == "<div>" + str(n) + "</div>"
+    if how == 1:
+        return TagList(n, [n]).get_html_string() == str(n) + str(n)
+    for f in (1.5, -0.0, 1e-05, float("inf"), float("nan"), 1e22):
+        if Tag("i", f).get_html_string() != "<i>" + str(f) + "</i>":
+            return False
+    return True
